@@ -1,1033 +1,19 @@
 #!/usr/bin/env python3
-"""tools/inventory.py — source inventories regenerated from /repo on every run.
-
-features_inventory(repo="/repo")  (CLI: `python3 tools/inventory.py features [--repo DIR] [--write]`)
-    From every workspace crate's Cargo.toml: declared features, their implications, optional
-    dependencies.  From the sources (module tree starting at src/lib.rs): every item guarded by
-    `cfg`, with the predicate parsed into a small AST, and from those
-      * groups of ALTERNATIVE items (same name, same scope, different cfg; aliases and their
-        targets; glob re-exports; arms of exported macros, also per expanding crate),
-      * items that name an OPTIONAL dependency (or `std` in a conditionally-no_std crate),
-      * references to cfg-guarded names,
-    rendered deterministically as lean/CC/Gen/Features.lean.
-Standard library only; self-contained (other inventories live in functions of their own).
-"""
-import itertools, json, os, re, sys
-
-try:
-    import tomllib
-except ImportError:  # pragma: no cover
-    tomllib = None
-
-# --------------------------------------------------------------------------- cfg predicate AST
-# ('tt',) ('ff',) ('feat', crate, name) ('tf', n) ('arch', n) ('endian', n) ('flag', n)
-# ('kv', key, value)  -> unknown key = "value" (kept as a flag atom "key=value")
-# ('not', p) ('all', [p..]) ('any', [p..])
-
-TT = ("tt",)
-FF = ("ff",)
-EXPANDER = "*"   # crate placeholder for `feature = ".."` inside an exported macro (definition site)
-
-
-class CfgSyntax(Exception):
-    pass
-
-
-def _tok(s):
-    out = []
-    i = 0
-    while i < len(s):
-        c = s[i]
-        if c.isspace():
-            i += 1
-        elif c in "(),=":
-            out.append(c)
-            i += 1
-        elif c == '"':
-            j = s.index('"', i + 1)
-            out.append(("str", s[i + 1:j]))
-            i = j + 1
-        else:
-            m = re.match(r"[A-Za-z_][A-Za-z0-9_]*", s[i:])
-            if not m:
-                raise CfgSyntax("bad character %r in cfg(%s)" % (c, s))
-            out.append(("id", m.group(0)))
-            i += len(m.group(0))
-    return out
-
-
-def parse_cfg(text, crate):
-    """Parse the inside of `cfg( … )`."""
-    toks = _tok(text)
-    pos = [0]
-
-    def peek():
-        return toks[pos[0]] if pos[0] < len(toks) else None
-
-    def take(x=None):
-        t = peek()
-        if t is None or (x is not None and t != x):
-            raise CfgSyntax("expected %r at token %d of cfg(%s)" % (x, pos[0], text))
-        pos[0] += 1
-        return t
-
-    def pred():
-        t = take()
-        if not (isinstance(t, tuple) and t[0] == "id"):
-            raise CfgSyntax("identifier expected in cfg(%s)" % text)
-        name = t[1]
-        if name in ("all", "any", "not") and peek() == "(":
-            take("(")
-            args = []
-            while peek() != ")":
-                args.append(pred())
-                if peek() == ",":
-                    take(",")
-            take(")")
-            if name == "not":
-                if len(args) != 1:
-                    raise CfgSyntax("not() takes one argument in cfg(%s)" % text)
-                return ("not", args[0])
-            return (name, args)
-        if peek() == "=":
-            take("=")
-            v = take()
-            if not (isinstance(v, tuple) and v[0] == "str"):
-                raise CfgSyntax("string expected after = in cfg(%s)" % text)
-            v = v[1]
-            if name == "feature":
-                return ("feat", crate, v)
-            if name == "target_feature":
-                return ("tf", v)
-            if name == "target_arch":
-                return ("arch", v)
-            if name == "target_endian":
-                return ("endian", v)
-            return ("flag", "%s=%s" % (name, v))
-        return ("flag", name)
-
-    p = pred()
-    if peek() == ",":
-        take(",")
-    if peek() is not None:
-        raise CfgSyntax("trailing tokens in cfg(%s)" % text)
-    return p
-
-
-def conj(ps):
-    flat = []
-    for p in ps:
-        if p == TT:
-            continue
-        if p[0] == "all":
-            flat.extend(q for q in p[1] if q != TT)
-        else:
-            flat.append(p)
-    if not flat:
-        return TT
-    if len(flat) == 1:
-        return flat[0]
-    return ("all", flat)
-
-
-def neg(p):
-    if p == TT:
-        return FF
-    if p == FF:
-        return TT
-    if p[0] == "not":
-        return p[1]
-    return ("not", p)
-
-
-def retarget(p, frm, to):
-    """Replace the crate of feature atoms `frm` by `to` (macro body evaluated in the expanding crate)."""
-    k = p[0]
-    if k == "feat":
-        return ("feat", to if p[1] == frm else p[1], p[2])
-    if k == "not":
-        return ("not", retarget(p[1], frm, to))
-    if k in ("all", "any"):
-        return (k, [retarget(q, frm, to) for q in p[1]])
-    return p
-
-
-def atoms(p, acc=None):
-    acc = [] if acc is None else acc
-    k = p[0]
-    if k in ("feat", "tf", "arch", "endian", "flag"):
-        if p not in acc:
-            acc.append(p)
-    elif k == "not":
-        atoms(p[1], acc)
-    elif k in ("all", "any"):
-        for q in p[1]:
-            atoms(q, acc)
-    return acc
-
-
-def ev(p, a):
-    k = p[0]
-    if k == "tt":
-        return True
-    if k == "ff":
-        return False
-    if k == "not":
-        return not ev(p[1], a)
-    if k == "all":
-        return all(ev(q, a) for q in p[1])
-    if k == "any":
-        return any(ev(q, a) for q in p[1])
-    return bool(a.get(p, False))
-
-
-def imp(p, q):
-    return ("any", [neg(p), q])
-
-
-STANDING = ("all", [
-    ("arch", "x86_64"),
-    ("endian", "little"),
-    ("not", ("endian", "big")),
-    ("tf", "sse2"),
-    imp(("tf", "avx2"), ("tf", "avx")),
-    imp(("tf", "avx"), ("tf", "sse4.1")),
-    imp(("tf", "sse4.1"), ("tf", "ssse3")),
-    imp(("tf", "ssse3"), ("tf", "sse2")),
-    imp(("tf", "aes"), ("tf", "sse2")),
-])
-
-
-def lean_str(s):
-    return '"' + s.replace("\\", "\\\\").replace('"', '\\"') + '"'
-
-
-def lean_cfg(p):
-    k = p[0]
-    if k == "tt":
-        return ".tt"
-    if k == "ff":
-        return ".ff"
-    if k == "feat":
-        return "feat %s %s" % (lean_str(p[1]), lean_str(p[2]))
-    if k in ("tf", "arch", "endian", "flag"):
-        return "%s %s" % (k, lean_str(p[1]))
-    if k == "not":
-        return ".not (%s)" % lean_cfg(p[1])
-    if k in ("all", "any"):
-        return ".%s [%s]" % (k, ", ".join(lean_cfg(q) for q in p[1]))
-    raise ValueError(p)
-
-
-def show_cfg(p):
-    k = p[0]
-    if k in ("tt", "ff"):
-        return {"tt": "true", "ff": "false"}[k]
-    if k == "feat":
-        return 'feature[%s]="%s"' % (p[1], p[2])
-    if k == "tf":
-        return 'target_feature="%s"' % p[1]
-    if k == "arch":
-        return 'target_arch="%s"' % p[1]
-    if k == "endian":
-        return 'target_endian="%s"' % p[1]
-    if k == "flag":
-        return p[1]
-    if k == "not":
-        return "not(%s)" % show_cfg(p[1])
-    return "%s(%s)" % (k, ", ".join(show_cfg(q) for q in p[1]))
-
-
-# --------------------------------------------------------------------------- Rust source scanning
-
-def mask_source(src):
-    """Blank out comments and the structural characters inside string/char literals, keeping all
-    offsets and newlines (string contents stay readable: cfg attributes need them)."""
-    out = list(src)
-    n = len(src)
-    i = 0
-
-    def blank(a, b, only=None):
-        for k in range(a, b):
-            if out[k] != "\n" and (only is None or out[k] in only):
-                out[k] = " "
-
-    while i < n:
-        c = src[i]
-        if src.startswith("//", i):
-            j = src.find("\n", i)
-            j = n if j < 0 else j
-            blank(i, j)
-            i = j
-        elif src.startswith("/*", i):
-            depth, j = 1, i + 2
-            while j < n and depth:
-                if src.startswith("/*", j):
-                    depth += 1
-                    j += 2
-                elif src.startswith("*/", j):
-                    depth -= 1
-                    j += 2
-                else:
-                    j += 1
-            blank(i, j)
-            i = j
-        elif c == "r" and re.match(r'r#*"', src[i:]) and (i == 0 or not (src[i - 1].isalnum() or src[i - 1] == "_")):
-            m = re.match(r'r(#*)"', src[i:])
-            close = '"' + m.group(1)
-            j = src.find(close, i + len(m.group(0)))
-            j = n if j < 0 else j + len(close)
-            blank(i + len(m.group(0)), j - len(close), only="{}();[]#!")
-            i = j
-        elif c == '"':
-            j = i + 1
-            while j < n and src[j] != '"':
-                j += 2 if src[j] == "\\" else 1
-            blank(i + 1, min(j, n), only="{}();[]#!")
-            i = j + 1
-        elif c == "'":
-            m = re.match(r"'(\\.[^']*|[^\\'])'", src[i:])
-            if m:
-                blank(i + 1, i + len(m.group(0)) - 1)
-                i += len(m.group(0))
-            else:
-                i += 1  # lifetime
-        else:
-            i += 1
-    return "".join(out)
-
-
-def _match_bracket(text, i, open_, close):
-    depth = 0
-    n = len(text)
-    while i < n:
-        if text[i] == open_:
-            depth += 1
-        elif text[i] == close:
-            depth -= 1
-            if depth == 0:
-                return i
-        i += 1
-    return n - 1
-
-
-HEADER_PATTERNS = [
-    ("macro", re.compile(r"\bmacro_rules!\s*(\w+)\s*$")),
-    ("extern_crate", re.compile(r"\bextern\s+crate\s+(\w+)(?:\s+as\s+(\w+))?\s*$")),
-    ("mod", re.compile(r"^(?:pub(?:\([^)]*\))?\s+)?mod\s+(\w+)\s*$")),
-    ("alias", re.compile(r"^(?:pub(?:\([^)]*\))?\s+)?use\s+([\w:$]+)\s+as\s+(\w+)\s*$")),
-    ("glob", re.compile(r"^(?:pub(?:\([^)]*\))?\s+)?use\s+([\w:$]+)::\*\s*$")),
-    ("use", re.compile(r"^(?:pub(?:\([^)]*\))?\s+)?use\s+(.+)$", re.S)),
-    ("fn", re.compile(r"\bfn\s+(\$?\w+)")),
-    ("static", re.compile(r"\b(?:static|const)\s+(?:mut\s+)?(\w+)\s*:")),
-    ("type", re.compile(r"\b(?:struct|enum|union|trait|type)\s+(\w+)")),
-    ("impl", re.compile(r"^\s*(?:unsafe\s+)?impl\b")),
-]
-
-
-def classify(header):
-    h = " ".join(header.split())
-    for kind, rx in HEADER_PATTERNS:
-        m = rx.search(h)
-        if m:
-            if kind == "extern_crate":
-                return kind, (m.group(2) or m.group(1)), m.group(1)
-            if kind == "alias":
-                return kind, m.group(2), m.group(1)
-            if kind in ("glob", "use"):
-                return kind, None, " ".join(m.group(1).split())
-            if kind == "impl":
-                return kind, None, h[:60]
-            return kind, m.group(1), None
-    return None, None, None
-
-
-NAMESPACE = {"macro": "macro", "mod": "type", "alias": "type", "extern_crate": "type", "type": "type",
-             "fn": "value", "static": "value"}
-
-
-class Item:
-    __slots__ = ("crate", "file", "line", "kind", "name", "target", "header", "own", "outer", "inner",
-                 "scope", "start", "end", "macro", "exported", "is_scope", "body_start")
-
-    def eff(self):
-        return conj([self.outer, self.inner, self.own])
-
-    def macro_part(self):
-        """the part of the predicate written inside the macro body (evaluated by the expander)"""
-        return conj([self.inner, self.own])
-
-    def label(self, rel):
-        h = " ".join(self.header.split())
-        if len(h) > 70:
-            h = h[:67] + "..."
-        return "%s:%d %s" % (rel(self.file), self.line, h)
-
-
-def scan_file(crate, path, file_pred, items, cond_attrs, errors):
-    """Linear scan of one source file.  Appends Item objects; returns (masked text, file predicate
-    including inner `#![cfg]`, list of (mod name, predicate, exported) for out-of-line modules)."""
-    src = open(path, errors="replace").read()
-    text = mask_source(src)
-    n = len(text)
-    line_of = [0] * (n + 1)
-    ln = 1
-    for k, ch in enumerate(text):
-        line_of[k] = ln
-        if ch == "\n":
-            ln += 1
-    line_of[n] = ln
-
-    # stack entries: dict(item=Item|None, pred, in_macro, exported, brace_pos)
-    stack = []
-    file_inner = []
-    pending = []
-    pending_start = None
-    pending_export = False
-    header_start = 0
-    depth_paren = 0
-    paren_stack = []
-    i = 0
-
-    def outer_inner():
-        outer, inner = [file_pred] + file_inner, []
-        in_macro = None
-        exported = False
-        for e in stack:
-            if in_macro is None:
-                outer.append(e["pred"])
-            else:
-                inner.append(e["pred"])
-            if e["macro"] and in_macro is None:
-                in_macro, exported = e["macro"], e["exported"]
-        return conj(outer), conj(inner), in_macro, exported
-
-    def mk_item(header, own, end_pos, is_scope, at):
-        kind, name, target = classify(header)
-        outer, inner, in_macro, exported = outer_inner()
-        it = Item()
-        it.crate, it.file = crate, path
-        it.line = line_of[pending_start if pending_start is not None else at]
-        hs = header.lstrip()
-        it.line = line_of[at - len(header) + (len(header) - len(hs))] if not pending else it.line
-        it.kind, it.name, it.target, it.header = kind, name, target, header.strip()
-        it.own, it.outer, it.inner = own, outer, inner
-        it.scope = (path, stack[-1]["brace_pos"] if stack else -1)
-        it.start = pending_start if pending_start is not None else at - len(header)
-        it.end = end_pos
-        it.macro, it.exported = in_macro, exported
-        it.is_scope = is_scope
-        it.body_start = at
-        return it
-
-    while i < n:
-        c = text[i]
-        if c == "#" and re.match(r"#\s*!?\s*\[", text[i:i + 8]):
-            m = re.match(r"#\s*(!?)\s*\[", text[i:])
-            inner_attr = m.group(1) == "!"
-            lb = i + len(m.group(0)) - 1
-            rb = _match_bracket(text, lb, "[", "]")
-            body = text[lb + 1:rb].strip()
-            try:
-                if re.match(r"cfg\s*\(", body):
-                    p = parse_cfg(body[body.index("(") + 1:body.rindex(")")], crate)
-                    if inner_attr:
-                        if stack:
-                            stack[-1]["pred"] = conj([stack[-1]["pred"], p])
-                        else:
-                            file_inner.append(p)
-                    else:
-                        if not pending:
-                            pending_start = i
-                        pending.append(p)
-                elif re.match(r"cfg_attr\s*\(", body):
-                    inside = body[body.index("(") + 1:body.rindex(")")]
-                    # first top-level comma separates predicate and attributes
-                    d, cut = 0, None
-                    for k, ch in enumerate(inside):
-                        if ch == "(":
-                            d += 1
-                        elif ch == ")":
-                            d -= 1
-                        elif ch == "," and d == 0:
-                            cut = k
-                            break
-                    p = parse_cfg(inside[:cut], crate)
-                    outer, inner, in_macro, _ = outer_inner()
-                    cond_attrs.append(dict(crate=crate, file=path, line=line_of[i], pred=p, outer=conj([outer, inner]),
-                                           attrs=" ".join(inside[cut + 1:].split()), inner_attr=inner_attr,
-                                           top=not stack))
-                elif body == "macro_export":
-                    pending_export = True
-                elif inner_attr and body == "no_std":
-                    cond_attrs.append(dict(crate=crate, file=path, line=line_of[i], pred=TT, outer=TT, attrs="no_std",
-                                           inner_attr=True, top=not stack))
-            except (CfgSyntax, ValueError) as e:
-                errors.append("%s:%d: %s" % (path, line_of[i], e))
-            i = rb + 1
-            if not inner_attr or True:
-                header_start = i
-            continue
-        if c in "([":
-            depth_paren += 1
-        elif c in ")]":
-            depth_paren = max(0, depth_paren - 1)
-        elif c == "{":
-            header = text[header_start:i]
-            it = mk_item(header, conj(pending), None, True, i)
-            is_macro = it.kind == "macro"
-            stack.append(dict(item=it, pred=it.own, macro=(it.name if is_macro else None),
-                              exported=(pending_export if is_macro else False), brace_pos=i))
-            if is_macro:
-                it.exported = pending_export
-            paren_stack.append(depth_paren)
-            depth_paren = 0
-            if pending or it.kind in ("macro", "mod", "fn"):
-                items.append(it)
-            pending, pending_start, pending_export = [], None, False
-            header_start = i + 1
-        elif c == "}":
-            if stack:
-                e = stack.pop()
-                e["item"].end = i
-                depth_paren = paren_stack.pop()
-            header_start = i + 1
-            # a `}` closes an item only at statement level; `=> { … };` in macros is handled by `;`
-        elif c == ";" and depth_paren == 0:
-            header = text[header_start:i]
-            if header.strip():
-                it = mk_item(header, conj(pending), i, False, i)
-                if pending or it.kind in ("mod", "alias", "glob", "extern_crate", "use"):
-                    items.append(it)
-            pending, pending_start, pending_export = [], None, False
-            header_start = i + 1
-        i += 1
-    return text, conj([file_pred] + file_inner)
-
-
-def crate_sources(crate, root, items, cond_attrs, errors):
-    """Follow the module tree from src/lib.rs.  Returns {path: (masked text, file predicate)}."""
-    files = {}
-    todo = [(os.path.join(root, "src", "lib.rs"), TT)]
-    while todo:
-        path, pred = todo.pop(0)
-        if path in files or not os.path.exists(path):
-            continue
-        before = len(items)
-        text, fpred = scan_file(crate, path, pred, items, cond_attrs, errors)
-        files[path] = (text, fpred)
-        base = os.path.basename(path)
-        d = os.path.dirname(path)
-        moddir = d if base in ("lib.rs", "mod.rs", "main.rs") else os.path.join(d, base[:-3])
-        for it in items[before:]:
-            if it.kind == "mod" and not it.is_scope and it.macro is None:
-                # out-of-line module; nested inline modules contribute their names to the path
-                sub = moddir
-                for cand in (os.path.join(sub, it.name + ".rs"), os.path.join(sub, it.name, "mod.rs")):
-                    if os.path.exists(cand):
-                        todo.append((cand, it.eff()))
-                        break
-    return files
-
-
-# --------------------------------------------------------------------------- Cargo manifests
-
-def load_manifests(repo):
-    ws = tomllib.load(open(os.path.join(repo, "Cargo.toml"), "rb"))
-    crates = []
-    for member in ws["workspace"]["members"]:
-        root = os.path.join(repo, member)
-        t = tomllib.load(open(os.path.join(root, "Cargo.toml"), "rb"))
-        name = t["package"]["name"]
-        deps = {}
-        for key, spec in (t.get("dependencies") or {}).items():
-            if isinstance(spec, str):
-                spec = {"version": spec}
-            deps[key] = dict(package=spec.get("package", key), optional=bool(spec.get("optional", False)),
-                             default_features=spec.get("default-features", True),
-                             features=list(spec.get("features", [])))
-        feats = {k: list(v) for k, v in (t.get("features") or {}).items()}
-        crates.append(dict(name=name, member=member, root=root, deps=deps, features=feats))
-    return crates
-
-
-def feature_points(cr):
-    """All subsets of the declared (non-default) features, as sorted tuples."""
-    names = sorted(f for f in cr["features"] if f != "default")
-    pts = []
-    for r in range(len(names) + 1):
-        for sub in itertools.combinations(names, r):
-            pts.append(sub)
-    return pts
-
-
-# --------------------------------------------------------------------------- the inventory
-
-REF_PREFIX_OK = ("self", "super", "crate", "$crate")
-ALWAYS_DEFINED = ("core", "std", "alloc")   # extern prelude: a guarded alias of that name only shadows it
-
-
-def find_refs(text, name, kind):
-    """Positions where `name` is used as a path segment / macro / function."""
-    out = []
-    if kind == "macro":
-        rx = re.compile(r"(?<![\w$])%s\s*!" % re.escape(name))
-    elif kind in ("fn", "static"):
-        rx = re.compile(r"(?<![\w$])%s\s*\(" % re.escape(name)) if kind == "fn" else re.compile(r"(?<![\w$])%s\b" % re.escape(name))
-    else:
-        rx = re.compile(r"(?<![\w$])%s(?:\s*::|\s+as\s+\w+\s*;)" % re.escape(name))
-    for m in rx.finditer(text):
-        s = m.start()
-        # preceding path segment, if any
-        pm = re.search(r"([\w$]+)\s*::\s*$", text[max(0, s - 40):s])
-        if pm and kind not in ("macro",) and pm.group(1) not in REF_PREFIX_OK:
-            continue
-        if kind == "fn" and re.search(r"\bfn\s+$", text[max(0, s - 12):s]):
-            continue
-        if kind == "macro" and re.search(r"macro_rules!\s*$", text[max(0, s - 20):s]):
-            continue
-        out.append(s)
-    return out
-
-
-def features_inventory(repo="/repo"):
-    repo = os.path.abspath(repo)
-    rel = lambda p: os.path.relpath(p, repo)
-    crates = load_manifests(repo)
-    by_name = {c["name"]: c for c in crates}
-    errors = []
-    inv = dict(repo=repo, crates=[], groups=[], optional_uses=[], name_refs=[], items=[], cond_attrs=[],
-               cfg_macro_uses=[], errors=errors, expansions=[])
-
-    all_items = {}
-    all_files = {}
-    cond_attrs_all = []
-    for cr in crates:
-        items, cattrs = [], []
-        files = crate_sources(cr["name"], cr["root"], items, cattrs, errors)
-        all_items[cr["name"]] = items
-        all_files[cr["name"]] = files
-        cond_attrs_all += cattrs
-        cr["cond_attrs"] = cattrs
-        # no_std predicate of the crate root
-        nostd = FF
-        for ca in cattrs:
-            if ca["top"] and ca["inner_attr"] and re.search(r"\bno_std\b", ca["attrs"]) and ca["file"].endswith(os.path.join("src", "lib.rs")):
-                nostd = ca["pred"]
-        cr["no_std"] = nostd
-        cr["std_available"] = neg(nostd)
-
-    def intervals_at(crate, path, pos):
-        ps = [all_files[crate][path][1]]
-        for it in all_items[crate]:
-            if it.file == path and it.own != TT and it.start <= pos and it.end is not None and pos <= it.end:
-                ps.append(it.own)
-        return conj(ps)
-
-    def enclosing_macro(crate, path, pos):
-        for it in all_items[crate]:
-            if it.file == path and it.kind == "macro" and it.is_scope and it.start <= pos <= (it.end or -1):
-                return it
-        return None
-
-    # ---- crate feature tables
-    for cr in crates:
-        c = cr["name"]
-        optional = {k: d["package"] for k, d in cr["deps"].items() if d["optional"]}
-        explicit_dep_syntax = any(r.startswith("dep:") for v in cr["features"].values() for r in v)
-        impls = []
-        for f in sorted(cr["features"]):
-            for r in cr["features"][f]:
-                if r.startswith("dep:"):
-                    impls.append((("feat", c, f), ("feat", c, r[4:])))
-                elif "/" in r:
-                    key, sub = r.split("/", 1)
-                    key = key.rstrip("?")
-                    pkg = cr["deps"].get(key, {}).get("package", key)
-                    if pkg in by_name:
-                        impls.append((("feat", c, f), ("feat", pkg, sub)))
-                    if key in optional:
-                        impls.append((("feat", c, f), ("feat", c, key)))
-                else:
-                    impls.append((("feat", c, f), ("feat", c, r)))
-        cr["implications"] = impls
-        cr["optional"] = optional
-        cr["implicit_features"] = [] if explicit_dep_syntax else sorted(optional)
-        cr["points"] = feature_points(cr)
-        inv["crates"].append(dict(
-            name=c, member=cr["member"],
-            features={k: cr["features"][k] for k in sorted(cr["features"])},
-            optional_deps=dict(sorted(optional.items())),
-            implications=[(show_cfg(a), show_cfg(b)) for a, b in impls],
-            no_std=show_cfg(cr["no_std"]), lattice_points=len(cr["points"])))
-
-    groups = []   # dict(crate, name, flavour, alts=[(label, pred)], kind, why)
-    name_refs = []
-    opt_uses = []
-    item_rows = []
-
-    # ---- every cfg-guarded item (mention analysis) + cfg!() expression uses
-    for cr in crates:
-        c = cr["name"]
-        for it in all_items[c]:
-            if it.own != TT:
-                p = it.eff() if it.macro is None else conj([it.outer, retarget(it.macro_part(), c, EXPANDER if it.exported else c)])
-                item_rows.append((c, it.label(rel), p))
-        for ca in cr["cond_attrs"]:
-            if ca["pred"] == TT:
-                continue  # plain `#![no_std]`
-            item_rows.append((c, "%s:%d cfg_attr(.., %s)" % (rel(ca["file"]), ca["line"], ca["attrs"]), conj([ca["outer"], ca["pred"]])))
-        for path, (text, _) in sorted(all_files[c].items()):
-            for m in re.finditer(r"\bcfg!\s*\(", text):
-                rb = _match_bracket(text, m.end() - 1, "(", ")")
-                try:
-                    em = enclosing_macro(c, path, m.start())
-                    p = parse_cfg(text[m.end():rb], EXPANDER if (em is not None and em.exported) else c)
-                    inv["cfg_macro_uses"].append(dict(crate=c, where="%s:%d" % (rel(path), text.count("\n", 0, m.start()) + 1), pred=show_cfg(p)))
-                    item_rows.append((c, "%s:%d cfg!(..)" % (rel(path), text.count("\n", 0, m.start()) + 1), p))
-                except CfgSyntax as e:
-                    errors.append(str(e))
-
-    # ---- groups: same name, same scope, same namespace
-    def item_pred(it, crate_for_macro):
-        if it.macro is None:
-            return it.eff()
-        return conj([it.outer, retarget(it.macro_part(), it.crate, crate_for_macro)])
-
-    exported_macros = {}   # name -> [definer Item]   (workspace-wide)
-    for cr in crates:
-        c = cr["name"]
-        buckets = {}
-        for it in all_items[c]:
-            if it.kind not in NAMESPACE or it.name is None:
-                continue
-            if it.kind == "macro" and it.exported:
-                scope = ("<crate root>", -1)
-                exported_macros.setdefault(it.name, []).append(it)
-            else:
-                scope = it.scope
-            buckets.setdefault((scope, NAMESPACE[it.kind], it.name), []).append(it)
-        globs = {}
-        for it in all_items[c]:
-            if it.kind == "glob" and it.own != TT:
-                globs.setdefault(it.scope, []).append(it)
-
-        for (scope, ns, name), its in sorted(buckets.items(), key=lambda kv: (kv[1][0].file, kv[1][0].line)):
-            guarded = [it for it in its if it.own != TT]
-            if len(its) < 2 and not guarded:
-                continue
-            if name in ALWAYS_DEFINED and len(its) < 2:
-                continue  # e.g. `#[cfg(feature = "std")] use std as core;`: `core` resolves either way
-            if len(its) >= 2 and not guarded and not (its[0].kind == "macro" and its[0].exported):
-                continue
-            in_macro = its[0].macro
-            evalcrate = EXPANDER if (in_macro and its[0].exported) else c
-            if in_macro:
-                # arms inside a macro body: only the part written in the body matters (the definition's
-                # own guard is accounted for in the `expansion of …` groups)
-                alts = [(it.label(rel), retarget(it.macro_part(), c, evalcrate)) for it in its]
-            else:
-                alts = [(it.label(rel), item_pred(it, evalcrate)) for it in its]
-            # references to the name (whole crate), with their effective predicates
-            refs = []
-            if not in_macro:
-                kind = its[0].kind if its[0].kind != "alias" else "mod"
-                for path, (text, _) in sorted(all_files[c].items()):
-                    for pos in find_refs(text, name, kind):
-                        if any(it.file == path and it.start <= pos <= it.body_start for it in its):
-                            continue  # the definer's own header
-                        em = enclosing_macro(c, path, pos)
-                        if em is not None and em.exported:
-                            # inside an exported macro body: cfgs written there are evaluated by the
-                            # expanding crate, but `$crate::name::` needs `name` to exist in this crate
-                            # whenever the macro definition itself is compiled in
-                            refs.append((path, pos, em.eff()))
-                            continue
-                        refs.append((path, pos, intervals_at(c, path, pos)))
-            unconditional = any(p == TT for _, _, p in refs)
-            if len(its) >= 2:
-                exported_macro = its[0].kind == "macro" and its[0].exported
-                flavour = "exactlyOne" if (unconditional or in_macro or exported_macro) else "atMostOne"
-                why = ("exported macro: dependent crates expand it whatever this crate's configuration" if exported_macro else
-                       "referenced unconditionally" if unconditional else
-                       "arms of a macro body; the expansion defines the function that is then called" if in_macro else
-                       "only referenced from cfg-guarded items (see nameRefs)")
-                gname = "%s %s `%s`%s" % (rel(its[0].file), {"macro": "macro", "type": "module/alias", "value": "fn"}[ns], name,
-                                          (" in macro %s!" % in_macro) if in_macro else "")
-                groups.append(dict(crate=c, name=gname, flavour=flavour, alts=alts, why=why, key=(c, ns, name, in_macro)))
-            if guarded and not in_macro:
-                seen = {}
-                for path, pos, p in refs:
-                    if p == TT and len(its) >= 2:
-                        continue  # covered by exactlyOne
-                    lab = "%s:%d" % (rel(path), all_files[c][path][0].count("\n", 0, pos) + 1)
-                    key = json.dumps(p)
-                    if key in seen:
-                        seen[key]["count"] += 1
-                        continue
-                    seen[key] = dict(crate=c, user=lab, name=name, pred=p, definers=[item_pred(it, c) for it in its], count=1)
-                    name_refs.append(seen[key])
-            # alias targets: `use self::x86_64 as arch` / `use self::generic as arch`
-            if len(its) >= 2 and all(it.kind == "alias" for it in its):
-                talts = []
-                for it in its:
-                    tname = it.target.split("::")[-1]
-                    for (s2, ns2, n2), its2 in buckets.items():
-                        if n2 == tname and ns2 == "type" and s2 == scope:
-                            for d in its2:
-                                talts.append((d.label(rel), item_pred(d, c)))
-                if len(talts) >= 2:
-                    groups.append(dict(crate=c, name="%s targets of alias `%s`" % (rel(its[0].file), name), flavour="exactlyOne",
-                                       alts=talts, why="each alias names one of these modules; the alias group is exactlyOne",
-                                       key=(c, "targets", name, None)))
-        for scope, its in sorted(globs.items(), key=lambda kv: (kv[1][0].file, kv[1][0].line)):
-            if len(its) >= 2:
-                groups.append(dict(crate=c, name="%s glob re-exports" % rel(its[0].file), flavour="exactlyOne",
-                                   alts=[(it.label(rel), it.eff()) for it in its],
-                                   why="the parent module imports the re-exported names unconditionally",
-                                   key=(c, "glob", rel(its[0].file), None)))
-
-    # ---- expansions of exported macros in other workspace crates
-    for cr in crates:
-        c = cr["name"]
-        dep_pkgs = {d["package"] for d in cr["deps"].values()}
-        for mname, definers in sorted(exported_macros.items()):
-            dcrate = definers[0].crate
-            if dcrate == c or dcrate not in dep_pkgs:
-                continue
-            sites = []
-            for path, (text, _) in sorted(all_files[c].items()):
-                for pos in find_refs(text, mname, "macro"):
-                    sites.append("%s:%d" % (rel(path), text.count("\n", 0, pos) + 1))
-            if not sites:
-                continue
-            alts = []
-            for d in sorted(definers, key=lambda x: (x.file, x.line)):
-                inner = [it for it in all_items[dcrate] if it.macro == mname and it.file == d.file and d.start <= it.start <= (d.end or 0)
-                         and it.kind == "fn" and it.macro_part() != TT]
-                # keep only the arms of the first rule (same scope)
-                inner = [it for it in inner if it.scope == inner[0].scope] if inner else []
-                if inner:
-                    for it in inner:
-                        alts.append((d.label(rel) + " / " + it.label(rel), conj([d.eff(), retarget(it.macro_part(), dcrate, c)])))
-                else:
-                    alts.append((d.label(rel), d.eff()))
-            groups.append(dict(crate=c, name="expansion of %s::%s! in %s" % (dcrate, mname, c), flavour="exactlyOne", alts=alts,
-                               why="%d invocation(s): %s" % (len(sites), ", ".join(sites[:6])), key=(c, "expansion", mname, None)))
-            inv["expansions"].append(dict(crate=c, macro=mname, defined_in=dcrate, sites=sites))
-            # `std` named inside the macro body, evaluated here
-            for d in definers:
-                text, _ = all_files[dcrate][d.file]
-                body = text[d.start:(d.end or d.start)]
-                for m in re.finditer(r"(?<![\w$:])std\s*::|\bis_x86_feature_detected\s*!", body):
-                    pos = d.start + m.start()
-                    inner_pred = conj([it.own for it in all_items[dcrate]
-                                       if it.file == d.file and it is not d and it.own != TT and d.start <= it.start and it.start <= pos <= (it.end or -1)])
-                    opt_uses.append(dict(crate=c, item="%s:%d %s (expanded in %s)" % (rel(d.file), text.count("\n", 0, pos) + 1, m.group(0).strip(), c),
-                                         dep="std", pred=conj([d.eff(), retarget(inner_pred, dcrate, c)]), needs=cr["std_available"]))
-
-    # ---- items naming optional dependencies (and `std` in conditionally-no_std crates)
-    for cr in crates:
-        c = cr["name"]
-        deps = [(k.replace("-", "_"), ("feat", c, k), k) for k in sorted(cr["optional"])]
-        for path, (text, _) in sorted(all_files[c].items()):
-            for ident, need, depname in deps:
-                for m in re.finditer(r"(?<![\w$])%s\s*(?:::|!)|\bextern\s+crate\s+%s\b|\buse\s+%s\b" % (ident, ident, ident), text):
-                    pos = m.start()
-                    opt_uses.append(dict(crate=c, item="%s:%d %s" % (rel(path), text.count("\n", 0, pos) + 1, " ".join(m.group(0).split())),
-                                         dep=depname, pred=intervals_at(c, path, pos), needs=need))
-            for m in re.finditer(r"(?<![\w$:])std\s*::|\buse\s+std\b|\bextern\s+crate\s+std\b|\bis_x86_feature_detected\s*!", text):
-                pos = m.start()
-                em = enclosing_macro(c, path, pos)
-                if em is not None and em.exported:
-                    continue  # handled per expanding crate
-                opt_uses.append(dict(crate=c, item="%s:%d %s" % (rel(path), text.count("\n", 0, pos) + 1, " ".join(m.group(0).split())),
-                                     dep="std", pred=intervals_at(c, path, pos), needs=cr["std_available"]))
-    # one row per (crate, dependency, predicate): first place it occurs + how many places
-    ded = {}
-    for u in opt_uses:
-        key = (u["crate"], u["dep"], json.dumps(u["pred"]), json.dumps(u["needs"]))
-        if key in ded:
-            ded[key]["count"] += 1
-        else:
-            u["count"] = 1
-            ded[key] = u
-    opt_uses = list(ded.values())
-
-    # ---- python-side evaluation (so that the report can name the assignment)
-    def assignments(ats):
-        for bits in itertools.product([False, True], repeat=len(ats)):
-            yield dict(zip(ats, bits))
-
-    findings = []
-    for g in groups:
-        ats = atoms(STANDING)
-        for _, p in g["alts"]:
-            atoms(p, ats)
-        bad = None
-        for a in assignments(ats):
-            if not ev(STANDING, a):
-                continue
-            k = sum(1 for _, p in g["alts"] if ev(p, a))
-            if (g["flavour"] == "exactlyOne" and k != 1) or (g["flavour"] == "atMostOne" and k > 1):
-                bad = (a, k)
-                break
-        g["exclusive"] = bad is None
-        if bad:
-            g["witness"] = sorted(show_cfg(x) for x, v in bad[0].items() if v)
-            findings.append("group not exclusive: [%s] %s: %d alternatives active under {%s}" % (g["crate"], g["name"], bad[1], ", ".join(g["witness"])))
-    for u in opt_uses:
-        impl = conj([imp(a, b) for a, b in by_name[u["crate"]]["implications"]])
-        f = imp(conj([STANDING, impl, u["pred"]]), u["needs"])
-        ats = atoms(f)
-        u["guarded"] = True
-        for a in assignments(ats):
-            if not ev(f, a):
-                u["guarded"] = False
-                u["witness"] = sorted(show_cfg(x) for x, v in a.items() if v)
-                findings.append("optional dependency `%s` named while disabled: [%s] %s under {%s}" % (u["dep"], u["crate"], u["item"], ", ".join(u["witness"])))
-                break
-    for r in name_refs:
-        f = imp(conj([STANDING, r["pred"]]), ("any", list(r["definers"])))
-        ats = atoms(f)
-        r["resolved"] = True
-        for a in assignments(ats):
-            if not ev(f, a):
-                r["resolved"] = False
-                r["witness"] = sorted(show_cfg(x) for x, v in a.items() if v)
-                findings.append("reference to `%s` with no active definition: [%s] %s under {%s}" % (r["name"], r["crate"], r["user"], ", ".join(r["witness"])))
-                break
-
-    # ---- unused features
-    unused = []
-    mentioned = set()
-    for cc, _, p in item_rows:
-        for a in atoms(p):
-            if a[0] == "feat":
-                mentioned.add((a[1], a[2]))
-    for coll, key in ((groups, None), (opt_uses, "pred"), (name_refs, "pred")):
-        for g in coll:
-            for p in ([q for _, q in g["alts"]] if key is None else [g[key]]):
-                for a in atoms(p):
-                    if a[0] == "feat":
-                        mentioned.add((a[1], a[2]))
-    all_impl = [(a[1:], b[1:]) for cr in crates for a, b in cr["implications"]]
-
-    def closure(cf):
-        seen, todo = [cf], [cf]
-        while todo:
-            x = todo.pop()
-            for a, b in all_impl:
-                if a == x and b not in seen:
-                    seen.append(b)
-                    todo.append(b)
-        return seen
-    for cr in crates:
-        c = cr["name"]
-        for f in sorted(cr["features"]):
-            if f != "default" and not any(x in mentioned for x in closure((c, f))):
-                unused.append((c, f))
-    inv.update(groups=groups, optional_uses=opt_uses, name_refs=name_refs, items=item_rows, cond_attrs=cond_attrs_all,
-               unused_features=unused, findings=findings, _crates=crates)
-    return inv
-
-
-# --------------------------------------------------------------------------- Lean rendering
-
-def render_lean(inv):
-    L = []
-    w = L.append
-    w("/-")
-    w("  CC.Gen.Features — GENERATED by tools/inventory.py (features_inventory). Do not edit.")
-    w("  Source: the workspace Cargo.toml files and the module trees under */src of the tree being checked.")
-    w("  Every `cfg` predicate is transcribed as written; `feat c n` is `feature = \"n\"` evaluated in crate c")
-    w("  (crate \"*\": inside an exported macro body, i.e. evaluated by whichever crate expands it).")
-    w("-/")
-    w("import CC.Feat.Model")
-    w("")
-    w("namespace CC.Gen.Features")
-    w("open CC.Feat CC.Feat.Cfg")
-    w("")
-    w("def crateFeatures : List CrateFeatures := [")
-    rows = []
-    for cr in inv["_crates"]:
-        feats = ", ".join("(%s, [%s])" % (lean_str(f), ", ".join(lean_str(r) for r in cr["features"][f])) for f in sorted(cr["features"]))
-        opts = ", ".join("(%s, %s)" % (lean_str(k), lean_str(v)) for k, v in sorted(cr["optional"].items()))
-        impls = ", ".join("(%s, %s)" % (lean_cfg(a), lean_cfg(b)) for a, b in cr["implications"])
-        rows.append("  { crate := %s, path := %s,\n    features := [%s],\n    optionalDeps := [%s],\n    implications := [%s],\n    noStd := %s,\n    latticePoints := %d }"
-                    % (lean_str(cr["name"]), lean_str(cr["member"]), feats, opts, impls, lean_cfg(cr["no_std"]), len(cr["points"])))
-    w(",\n".join(rows) + " ]")
-    w("")
-    w("def groups : List Group := [")
-    rows = []
-    for g in inv["groups"]:
-        alts = ",\n      ".join("(%s, %s)" % (lean_str(n), lean_cfg(p)) for n, p in g["alts"])
-        rows.append("  -- %s\n  { crate := %s, name := %s, flavour := .%s,\n    alts := [\n      %s ] }" % (
-            g["why"], lean_str(g["crate"]), lean_str(g["name"]), g["flavour"], alts))
-    w(",\n".join(rows) + " ]")
-    w("")
-    w("def optionalUses : List OptUse := [")
-    rows = ["  { crate := %s, item := %s, dep := %s,\n    pred := %s,\n    needs := %s }" % (
-        lean_str(u["crate"]), lean_str(u["item"] + (" (+%d more)" % (u["count"] - 1) if u["count"] > 1 else "")), lean_str(u["dep"]),
-        lean_cfg(u["pred"]), lean_cfg(u["needs"])) for u in inv["optional_uses"]]
-    w(",\n".join(rows) + " ]")
-    w("")
-    w("def nameRefs : List NameRef := [")
-    rows = ["  { crate := %s, user := %s, name := %s,\n    pred := %s,\n    definers := [%s] }" % (
-        lean_str(r["crate"]), lean_str(r["user"] + (" (+%d more)" % (r["count"] - 1) if r["count"] > 1 else "")), lean_str(r["name"]),
-        lean_cfg(r["pred"]), ", ".join(lean_cfg(d) for d in r["definers"]))
-        for r in inv["name_refs"]]
-    w(",\n".join(rows) + " ]")
-    w("")
-    w("/-- every cfg-guarded item, `cfg_attr` and `cfg!()` use (for the analysis of which features are mentioned at all) -/")
-    w("def guardedItems : List GuardedItem := [")
-    rows = ["  { crate := %s, item := %s, pred := %s }" % (lean_str(c), lean_str(n), lean_cfg(p)) for c, n, p in inv["items"]]
-    w(",\n".join(rows) + " ]")
-    w("")
-    w("end CC.Gen.Features")
-    return "\n".join(L) + "\n"
-
-
-def write_lean(inv, verif):
-    path = os.path.join(verif, "lean", "CC", "Gen", "Features.lean")
-    os.makedirs(os.path.dirname(path), exist_ok=True)
-    new = render_lean(inv)
-    old = open(path).read() if os.path.exists(path) else None
-    if old != new:
-        with open(path, "w") as f:
-            f.write(new)
-    return path, old != new
-
-
-def summary(inv):
-    return dict(
-        crates={c["name"]: dict(features=sorted(k for k in c["features"]), optional_deps=c["optional_deps"], lattice_points=c["lattice_points"])
-                for c in inv["crates"]},
-        groups=[dict(crate=g["crate"], name=g["name"], flavour=g["flavour"], alternatives=len(g["alts"]), exclusive=g["exclusive"]) for g in inv["groups"]],
-        optional_uses=len(inv["optional_uses"]), name_refs=len(inv["name_refs"]), guarded_items=len(inv["items"]),
-        cfg_macro_uses=len(inv["cfg_macro_uses"]), expansions=inv["expansions"],
-        unused_features=["%s/%s" % cf for cf in inv["unused_features"]], findings=inv["findings"], errors=inv["errors"])
-
-
-def main(argv):
-    if len(argv) < 2 or argv[1] != "features":
-        print(__doc__)
-        return 2
-    repo = "/repo"
-    if "--repo" in argv:
-        repo = argv[argv.index("--repo") + 1]
-    inv = features_inventory(repo)
-    if "--write" in argv:
-        verif = os.path.dirname(os.path.dirname(os.path.abspath(__file__)))
-        path, changed = write_lean(inv, verif)
-        print("wrote %s (%s)" % (path, "changed" if changed else "unchanged"), file=sys.stderr)
-    if "--lean" in argv:
-        sys.stdout.write(render_lean(inv))
-    else:
-        json.dump(summary(inv), sys.stdout, indent=1)
-        print()
-    return 0
-
-
+"""tools/inventory.py <features|shared|memops> [args…] — source inventories regenerated from /repo on
+every run (each feeds a decidable Lean proof obligation): cfg/feature selection groups (C20),
+process-global shared state (C18), raw-memory operations (C16)."""
+import os, sys
+sys.path.insert(0, os.path.dirname(os.path.abspath(__file__)))
 if __name__ == "__main__":
-    sys.exit(main(sys.argv))
+    kind = sys.argv[1] if len(sys.argv) > 1 else ""
+    if kind == "features":
+        import inventory_features as m
+        sys.exit(m.main(sys.argv[1:]) if hasattr(m, "main") else 0)
+    if kind == "shared":
+        import inventory_shared as m
+        sys.exit(m._shared_main(sys.argv[1:]))
+    if kind == "memops":
+        import inventory_memops as m
+        sys.exit(m.main(sys.argv[1:]))
+    print(__doc__)
+    sys.exit(2)
